@@ -588,7 +588,7 @@ func init() {
 					}
 				}
 			}
-			for _, where := range []string{"param-name", "service-name", "param-value", "getter", "tag", "pattern-ref", "long-args", "many-services"} {
+			for _, where := range []string{"param-name", "service-name", "param-value", "getter", "tag", "pattern-ref", "long-args", "many-services", "many-shared-services", "many-contextual-services-one-tag", "many-parameters-referenced"} {
 				where := where
 				w.Case("long/"+where, func(c *C) {
 					long := strings.Repeat("a", 64*1024)
@@ -613,6 +613,25 @@ func init() {
 						}
 						cfg.Params = []Param{{"p", 1}}
 						cfg.Services = []Service{{Name: "s", Constructor: P("New"), Args: args}}
+					case "many-shared-services":
+						for i := 0; i < 8000; i++ {
+							cfg.Services = append(cfg.Services, Service{Name: fmt.Sprintf("s%d", i), Constructor: P("New"), Scope: P("shared"), Args: []any{"%p%"}})
+						}
+						cfg.Params = []Param{{"p", 1}}
+					case "many-contextual-services-one-tag":
+						for i := 0; i < 4000; i++ {
+							cfg.Services = append(cfg.Services, Service{Name: fmt.Sprintf("s%d", i), Constructor: P("New"), Scope: P("contextual"), Tags: []Tag{{Name: "t", Priority: P(i % 7)}}})
+						}
+						cfg.Services = append(cfg.Services, Service{Name: "all", Constructor: P("New"), Args: []any{"!tagged t"}})
+						cfg.Decorators = []Decorator{{Tag: "t", Decorator: "Dec"}}
+					case "many-parameters-referenced":
+						for i := 0; i < 6000; i++ {
+							v := any(i)
+							if i > 0 {
+								v = fmt.Sprintf("%%p%d%%", (i-1)/2)
+							}
+							cfg.Params = append(cfg.Params, Param{fmt.Sprintf("p%d", i), v})
+						}
 					case "many-services":
 						for i := 0; i < 1500; i++ {
 							s := Service{Name: fmt.Sprintf("s%d", i), Constructor: P("New")}
